@@ -56,7 +56,7 @@ def check_headers(P, ctx):
     bad_stack = []
     for f in P.all_functions():
         N = None
-        for c, ln in ir.all_calls(f['body']):
+        for c, ln in ir.all_calls(f['body'], raw=True):
             if ir.callee_name(c) != 'header_init':
                 continue
             ctx.stats['call_sites'] += 1
